@@ -237,7 +237,11 @@ func c10RandSeq(r *rand.Rand) []c10op {
 		case x < 80:
 			o = c10op{Op: "stat", Key: c10RandKey(r, pool, 'x')}
 		default:
-			o = c10op{Op: "list", Key: c10RandKey(r, pool, 'p'), Rec: r.Intn(2) == 0}
+			m := byte('p')
+			if r.Intn(5) == 0 { // a file key, or a key below a file
+				m = 'x'
+			}
+			o = c10op{Op: "list", Key: c10RandKey(r, pool, m), Rec: r.Intn(2) == 0}
 		}
 		if o.Key == "" && o.Op != "list" {
 			o.Key = "a"
@@ -351,6 +355,8 @@ func c10Child(dir, spec string) error {
 	case "load":
 		_, err := s.Load(ctx, "x/y/k")
 		return err
+	case "delete":
+		return s.Delete(ctx, "x/y/k")
 	case "crashwriter": // crashwriter:<size>: Store ids 1,2,3... for ever, announcing each
 		size, _ := strconv.Atoi(parts[1])
 		for id := 1; ; id++ {
@@ -600,7 +606,7 @@ func c10History(tmproot string, r *rand.Rand, size int, nW, nR, nP, perWriter in
 	add(c10hev{false, t0, now(), total + 1})
 	var wg sync.WaitGroup
 	var stop int32
-	var errs []string
+	var errs, failed []string
 	for w := 0; w < nW; w++ {
 		wg.Add(1)
 		go func(w int) {
@@ -611,10 +617,12 @@ func c10History(tmproot string, r *rand.Rand, size int, nW, nR, nP, perWriter in
 				err := s.Store(ctx, "d/k", val(id))
 				b := now()
 				if err != nil {
+					// a Store that fails under contention is an observation, not a harness error
 					mu.Lock()
-					errs = append(errs, err.Error())
+					failed = append(failed, err.Error())
 					mu.Unlock()
-					return
+					add(c10hev{false, a, b, -2})
+					continue
 				}
 				add(c10hev{false, a, b, id})
 			}
@@ -664,7 +672,9 @@ func c10History(tmproot string, r *rand.Rand, size int, nW, nR, nP, perWriter in
 	wg.Wait()
 	for i, c := range cmds {
 		if err := c.Wait(); err != nil {
-			errs = append(errs, fmt.Sprintf("child: %v: %s", err, outs[i].String()))
+			// the writer child stops at its first failed Store
+			failed = append(failed, fmt.Sprintf("child: %v: %s", err, outs[i].String()))
+			add(c10hev{false, now(), now(), -2})
 		}
 		sc := bufio.NewScanner(outs[i])
 		for sc.Scan() {
@@ -685,6 +695,12 @@ func c10History(tmproot string, r *rand.Rand, size int, nW, nR, nP, perWriter in
 	// temp files must not be left behind by completed Stores
 	ents, _ := os.ReadDir(filepath.Join(dir, "d"))
 	info := map[string]any{"dirents_after": len(ents)}
+	if len(failed) > 0 {
+		if len(failed) > 3 {
+			failed = failed[:3]
+		}
+		info["failed_stores"] = failed
+	}
 	sort.Slice(hist, func(i, j int) bool { return hist[i].T0 < hist[j].T0 })
 	base := hist[0].T0
 	for i := range hist {
@@ -845,7 +861,7 @@ func runC10(tier string, seed int64, outdir string, replay string) error {
 			txt   string
 			err   error
 		}
-		ch := make(chan res, 2*len(sizes))
+		ch := make(chan res, 2*len(sizes)+1)
 		for _, n := range sizes {
 			n := n
 			go func() {
@@ -860,8 +876,15 @@ func runC10(tier string, seed int64, outdir string, replay string) error {
 				ch <- res{1, n, evs, txt, err}
 			}()
 		}
+		go func() { // Delete of a file key: one unlink of the destination
+			evs, txt, err := c10Strace(tmproot, "delete", func(store string) {
+				s := &certmagic.FileStorage{Path: store}
+				s.Store(context.Background(), "x/y/k", c10Value(1, 100))
+			})
+			ch <- res{2, 100, evs, txt, err}
+		}()
 		var all []res
-		for i := 0; i < 2*len(sizes); i++ {
+		for i := 0; i < 2*len(sizes)+1; i++ {
 			all = append(all, <-ch)
 		}
 		sort.Slice(all, func(i, j int) bool { return all[i].which*1000000+all[i].n < all[j].which*1000000+all[j].n })
@@ -874,7 +897,7 @@ func runC10(tier string, seed int64, outdir string, replay string) error {
 			for _, ev := range x.evs {
 				e.Z(ev.Code).Z(ev.Class).Z(ev.Arg)
 			}
-			name := []string{"Store", "Load"}[x.which]
+			name := []string{"Store", "Load", "Delete"}[x.which]
 			w.Hist("strace=" + name)
 			w.Add(emit.Case{Desc: map[string]any{"kind": "strace", "class": "strace-" + name, "size": x.n}, In: map[string]any{"op": name, "size": x.n},
 				Obs: strings.Split(x.txt, "\n"), Wire: e.String(), Nontrivial: true, Key: fmt.Sprint("strace", x.which, x.n)})
